@@ -601,6 +601,14 @@ namespace ValueFlow
                             if (result.isFloatValue()) {
                                 result.floatValue = static_cast<double>(val);
                             } else {
+                                // unsigned arithmetic is performed modulo 2^N
+                                if (!result.isImpossible() && !parent->isComparisonOp() && astIsUnsigned(parent) &&
+                                    !parent->valueType()->pointer) {
+                                    result.wideintvalue = val;
+                                    val = truncateIntValue(val,
+                                                           parent->valueType()->getSizeOf(settings, ValueType::Accuracy::ExactOrZero, ValueType::SizeOf::Pointer),
+                                                           ValueType::Sign::UNSIGNED);
+                                }
                                 result.intvalue = val;
                             }
                         }
